@@ -11,7 +11,8 @@ EXTENDS EvySeeds, Json, TLC, Integers
 
 CONSTANTS Tier,
           Edits1,       \* set of single edits (numbers), applied to every seed
-          Headers,      \* set of header codes
+          Headers,      \* set of header codes (after the bare keyword; body without the parameter)
+          Headers2,     \* set of header codes (after the keyword and a name; bodies that use the parameter x)
           Edits2        \* set of pairs <<e1, e2>> encoded as e1 * 10 + index into Second
 
 VARIABLE mu
@@ -44,13 +45,22 @@ HdrVocab == << "f", " x", ":", "num", "[]", "{}", "any", "...", " ", "\n", "end"
 NH == 16
 RECURSIVE HdrSeq(_, _)
 HdrSeq(code, len) == IF len = 0 THEN <<>> ELSE <<HdrVocab[(code % NH) + 1]>> \o HdrSeq(code \div NH, len - 1)
-Header(kw, c) == <<kw>> \o HdrSeq(c % 10000000, c \div 10000000) \o <<"\n", "    print 1\n", "end\n", "print 2\n">>
+\* the body of the definition: nothing of the header, or the parameter x in every expression form, or in every
+\* statement form (whatever the header made of x - a typed parameter, an ill-typed one, nothing at all)
+Bodies == << <<"    print 1\n">>,
+             <<"    print x x[0] x[1:] x.a -x !x (x+1) (x and true) x.(num) [x] {a:x} (len x)\n", "    print x[0][1] x.a.b (x[0]) x[:1][0]\n">>,
+             <<"    for c := range x\n", "        print c\n", "    end\n", "    x = 1\n", "    x[0] = 1\n", "    x.a = 1\n",
+               "    while x\n", "        break\n", "    end\n", "    if x\n", "        print 1\n", "    end\n", "    y := x\n", "    print y\n",
+               "    for range x\n", "        print 1\n", "    end\n", "    for i := range x x x\n", "        print i\n", "    end\n", "    return x\n">> >>
+Header(kw, c, b) == <<kw>> \o HdrSeq(c % 10000000, c \div 10000000) \o <<"\n">> \o Bodies[b] \o <<"end\n", "print 2\n">>
+HdrKw == << "func ", "on ", "on key", "func f", "on down", "func f:num" >>
 
-Init == mu \in {<<s, e, 0>> : s \in DOMAIN Seeds, e \in Edits1} \cup {<<0 - k, h, 0>> : k \in {1, 2}, h \in Headers}
+Init == mu \in {<<s, e, 0>> : s \in DOMAIN Seeds, e \in Edits1} \cup {<<0 - k, h, 1>> : k \in {1, 2}, h \in Headers}
+               \cup {<<0 - k, h, b>> : k \in {3, 4, 5, 6}, h \in Headers2, b \in {2, 3}}
                \cup {<<s, e2 \div 10, Second[(e2 % 10) + 1]>> : s \in DOMAIN Seeds, e2 \in Edits2}
 Next == FALSE /\ UNCHANGED mu
 
-Mutant == IF mu[1] < 0 THEN Header(IF mu[1] = -1 THEN "func " ELSE "on ", mu[2])
+Mutant == IF mu[1] < 0 THEN Header(HdrKw[0 - mu[1]], mu[2], mu[3])
           ELSE LET a == Apply(Seeds[mu[1]], mu[2]) IN IF mu[3] = 0 THEN a ELSE Apply(a, mu[3])
 Emit == PrintT(ToJson([seed |-> mu[1], e1 |-> mu[2], e2 |-> mu[3], src |-> Mutant]))
 =============================================================================
